@@ -84,6 +84,14 @@ type Obl struct {
 
 func (o *Obl) Group() string { return o.Func + "/" + o.Class + "/" + o.Anchor }
 
+// cover: a point that must be reachable (vacuity guard): the assumptions up to it must not be contradictory.
+type cover struct {
+	reach  Term
+	prefix int
+	blk    int
+	pos    string
+}
+
 type guardedMap struct {
 	heap string
 	obj  Term
@@ -136,6 +144,7 @@ type Enc struct {
 	anc       map[int]map[int]bool // anc[b]: blocks that can reach b (back edges removed), including b
 	trace     *traceState
 	subTags   int
+	covers    []cover
 	ownStores map[string][]Term
 	callOrd   map[string]int
 	finalOnce sync.Once
@@ -285,10 +294,39 @@ func isOpaqueStruct(t types.Type) bool {
 	if _, ok := n.Underlying().(*types.Struct); !ok {
 		return false
 	}
-	if n.Obj().Pkg() != nil && n.Obj().Pkg().Path() == "reflect" && (n.Obj().Name() == "SelectCase" || n.Obj().Name() == "StructField") {
-		return false // plain data structs whose fields the code under contract reads and writes
+	if isAnkoPkg(n.Obj().Pkg()) {
+		return false
 	}
-	return !isAnkoPkg(n.Obj().Pkg())
+	// external plain-data structs whose fields the code under contract reads or writes (reflect.SelectCase, ...)
+	return !transparentExt[typeName(n)]
+}
+
+// transparentExt: external struct types with a field access somewhere in the anko packages (filled by the loader).
+var transparentExt = map[string]bool{}
+
+func computeTransparentExt(P *Prog) {
+	note := func(t types.Type) {
+		if p, ok := t.Underlying().(*types.Pointer); ok {
+			t = p.Elem()
+		}
+		if n, ok := t.(*types.Named); ok && n.Obj().Pkg() != nil && !isAnkoPkg(n.Obj().Pkg()) {
+			if _, ok := n.Underlying().(*types.Struct); ok {
+				transparentExt[typeName(n)] = true
+			}
+		}
+	}
+	for _, f := range P.Funcs {
+		for _, b := range f.Blocks {
+			for _, ins := range b.Instrs {
+				switch x := ins.(type) {
+				case *ssa.FieldAddr:
+					note(x.X.Type())
+				case *ssa.Field:
+					note(x.X.Type())
+				}
+			}
+		}
+	}
 }
 
 func isStructVal(t types.Type) bool {
@@ -456,7 +494,7 @@ func (e *Enc) declIface() {
 	e.decls.fun("ival", []string{"Int"}, "Int")
 	e.decls.fun("mkiface", []string{"Int", "Int"}, "Int")
 	e.decls.add("ax:ifnil", "(assert (= (dyn 0) 0))")
-	e.decls.add("ax:ifinj", "(assert (forall ((t Int) (v Int)) (! (and (= (dyn (mkiface t v)) t) (= (ival (mkiface t v)) v) (=> (not (= t 0)) (not (= (mkiface t v) 0)))) :pattern ((mkiface t v)))))")
+	e.decls.add("ax:ifinj", "(assert (forall ((t Int) (v Int)) (! (=> (not (= t 0)) (and (= (dyn (mkiface t v)) t) (= (ival (mkiface t v)) v) (not (= (mkiface t v) 0)))) :pattern ((mkiface t v)))))")
 	e.decls.add("ax:ifsurj", "(assert (forall ((i Int)) (! (=> (not (= i 0)) (= (mkiface (dyn i) (ival i)) i)) :pattern ((dyn i)))))")
 	e.decls.add("ax:dynnz", "(assert (forall ((i Int)) (! (=> (not (= i 0)) (not (= (dyn i) 0))) :pattern ((dyn i)))))")
 }
@@ -1147,6 +1185,9 @@ func (e *Enc) prepareCFG() ([]*ssa.BasicBlock, bool) {
 		e.loops[h].ordinal = i
 		if e.c != nil {
 			e.loops[h].spec = e.c.Loops[i]
+			if e.loops[h].spec == nil && len(e.c.DefaultInv) > 0 {
+				e.loops[h].spec = &LoopSpec{Invariants: e.c.DefaultInv}
+			}
 		}
 	}
 	return order, true
